@@ -48,4 +48,12 @@ def close (tol : Rat) (a b : List (List Rat)) : Bool :=
   a.length == b.length &&
   (a.zip b).all (fun (r1, r2) => r1.length == r2.length && (r1.zip r2).all (fun (x, y) => decide (absQ (x - y) ≤ tol)))
 
+/-- entrywise closeness with a LOCAL tolerance: `eps · (1 + local scale)`, the local scale being the same filter applied to `|x|`
+(rounding errors of a weighted sum are relative to the magnitudes inside the window, not to the global maximum) -/
+def closeLocal (eps : Rat) (model scale obs : List (List Rat)) : Bool :=
+  model.length == obs.length && scale.length == obs.length &&
+  (List.zip model (List.zip scale obs)).all (fun (m, (s, o)) =>
+    m.length == o.length && s.length == o.length &&
+    (List.zip m (List.zip s o)).all (fun (x, (sc, y)) => decide (absQ (x - y) ≤ eps * (1 + sc))))
+
 end MsmVerif.Filter
